@@ -9,14 +9,14 @@ BOUNDS = {
               'EVERY tick count of the Rep inside the representable domain (exact result and common-type intermediates fit; the interval is computed at compile time) for: '
               'duration_cast, floor, ceil (rational oracle and std::chrono), round == std::chrono (except the pairs in ROUND_STD_HARD, where cvc5 gives no verdict), '
               'time_point_cast/floor/ceil/round == the duration operations and == std::chrono, + - (exact and std::chrono), conversion to the common type, six comparisons of durations and of time_points, '
-              'd/d and d%d == std::chrono, remainder magnitude/sign, abs, unary + -, ++/--, zero/min/max, += -= *= (all multipliers), /= %= (built-in operators in a wider type and std::chrono), time_point += -= ++ --. '
-              'round against the rational oracle (nearest, ties to even): every count of the domain when the conversion factor is integral (finer target); |count| < 2^16 when it divides (coarser target, SAT); '
+              'd/d and d%d == std::chrono, remainder magnitude/sign, abs, unary + -, ++/--, zero/min/max, += -= *= (all multipliers), /= %= (== std::chrono), time_point += -= ++ --. '
+              'round against the rational oracle (nearest, ties to even): every count of the domain when the conversion factor is integral (finer target); |count| < 2^12 when it divides (coarser target, SAT; 2^9 for int64 with a factor n/d, n != 1); '
               'additionally Rep=int16 on 12 pairs where cast/floor/ceil/round (rational oracle) are decided for ALL counts of the Rep - a full-range verdict for the template logic. '
-              'd/d quotient against the definition |A - q*B| < |B| (symbolic product): |divisor| < 2^5, |dividend| < 2^12, 3 pairs. '
+              'd/d quotient against the definition |A - q*B| < |B| (symbolic product): |divisor| < 2^5, |dividend| < 2^12, 3 pairs (int32) + 1 pair (int64). '
               'float/double Rep on 4 pairs: cast, floor, ceil, abs, unary, + -, common type, comparisons, d/d, += -= *= /=, converting constructor, time_point casts == libstdc++ bit for bit for every bit pattern. '
               'mixed Rep: int32+int64, int64+int16 (exact + std::chrono), float+double, double+float, double+int32, int64+double on 1-2 pairs; integer operands of an integer/floating mix |count| <= 2^31 and |count*factor| < 2^53.'),
-    'thorough': ('as quick with all 100 ordered pairs x {int32,int64} (pairs with an empty domain skipped); round with the rational oracle |count| < 2^20 for dividing factors; '
-                 'int16 on every pair with a non-empty domain; d/d quotient definition |divisor| < 2^6 on all pairs; float/double on 30 pairs; more mixed-Rep pairs'),
+    'thorough': ('as quick with all 100 ordered pairs x {int32,int64} (pairs with an empty domain skipped); round with the rational oracle |count| < 2^14 for dividing factors 1/d, 2^12 (int32) / 2^11 (int64) for factors n/d; '
+                 'int16 on every pair with a non-empty domain; d/d quotient definition |divisor| < 2^6 on all pairs; float/double on 15 pairs; more mixed-Rep pairs'),
 }
 ASSUMPTIONS = [
     'C12: inputs restricted to those whose exact result and intermediate common-type / intmax_t values are representable (outside that std::chrono is undefined too); the domain is an interval of counts computed by a constexpr 128-bit search in the driver and static_assert-checked at its ends',
@@ -106,18 +106,18 @@ def domains(w, fn, fd, tn, td):
     p_ceil = lambda c: p_cmpct(c) and fits(tq(c, cn, cd) + 1)
     p_round = lambda c: p_floor(c) and p_ceil(c) and fits((tq(c, cn, cd) - 1) * tf) and fits((tq(c, cn, cd) + 1) * tf)
     return {'cast': dom(p_cast, rmax), 'floor': dom(p_floor, rmax), 'ceil': dom(p_ceil, rmax), 'round': dom(p_round, rmax),
-            'a': dom(lambda a: fits(a * ff), rmax), 'b': dom(lambda b: fits(b * tf), rmax), 'cd': cd, 'cn': cn}
+            'a': dom(lambda a: fits(a * ff), rmax), 'b': dom(lambda b: fits(b * tf), rmax), 'cd': cd, 'cn': cn, 'ff': ff, 'tf': tf}
 
 
 def wide(d, n=8):
     return d is not None and d[1] - d[0] >= n
 
 
-def int_queries(tier, w, f, t, arith=True, rlim_div=20, dlim=6, bud=90, divdef=True):
+def int_queries(tier, w, f, t, arith=True, rlim_div=None, dlim=6, bud=90, divdef=True):
     fn, fd = PERIODS[f]; tn, td = PERIODS[t]
     D = domains(w, fn, fd, tn, td)
     full16 = (w == 16)
-    rlim = 0 if (D['cd'] == 1 or full16) else rlim_div
+    rlim = 0 if (D['cd'] == 1 or full16) else rlim_div[(w, D['cn'] == 1)]
     cfg = {'REPW': w, 'FN': fn, 'FD': fd, 'TN': tn, 'TD': td, 'RLIM': rlim, 'DLIM': dlim, 'ALIM': 12 if w > 16 else 0}
     pd = lcm(fd, td)
     no_round = pd * pd > (1 << 63) - 1   # etl::lcm(d, d) overflows: round<> does not compile for this pair (see kernel.cpp)
@@ -126,7 +126,7 @@ def int_queries(tier, w, f, t, arith=True, rlim_div=20, dlim=6, bud=90, divdef=T
     out = []
 
     def add(entry, solver, **kw):
-        out.append(dict(entry=entry, cfg=cfg, unwind=3, solver=solver, budget=bud, **kw))
+        out.append(dict(entry=entry, cfg=cfg, unwind=3, solver=solver, budget=bud, witness_solver='kissat', **kw))
     if wide(D['cast']): add('q_cast', SMT + SAT)
     if wide(D['floor']): add('q_floor', SMT + SAT)
     if wide(D['ceil']): add('q_ceil', SMT + SAT)
@@ -136,12 +136,15 @@ def int_queries(tier, w, f, t, arith=True, rlim_div=20, dlim=6, bud=90, divdef=T
         add('q_round', (SMT + SAT) if rlim == 0 and not full16 else SAT)
         if (w, f, t) not in ROUND_STD_HARD:
             add('q_round_std', SMT)
-        if 1 < D['cd'] < (1 << 18) and D['round'][0] <= -2 * D['cd'] and D['round'][1] >= 2 * D['cd']:
+        if D['cn'] == 1 and 1 < D['cd'] < (1 << 18) and D['round'][0] <= -2 * D['cd'] and D['round'][1] >= 2 * D['cd']:
             add('q_reach', SAT)
     if arith and wide(D['a']) and wide(D['b']):
-        add('q_add', SMT + SAT); add('q_sub', SMT + SAT); add('q_common', SAT); add('q_cmp', SAT); add('q_tp_cmp', SAT)
-        add('q_moddiv', SMT); add('q_moddef', SAT)
-        if divdef:
+        # products by factors >= 2^30 (and every int64 product) are formed in 128 bit by the oracle: cvc5's bit-vector solver first
+        small = w <= 32 and max(D['cn'], D['cd'], D['ff'], D['tf']) < (1 << 30)
+        bvs = (SAT + ['cvc5']) if small else ['cvc5', 'kissat']
+        add('q_add', SMT + SAT); add('q_sub', SMT + SAT); add('q_common', bvs); add('q_cmp', bvs); add('q_tp_cmp', bvs)
+        add('q_moddiv', SMT); add('q_moddef', (SAT + SMT) if small else (SMT + SAT))
+        if divdef and (w == 32 or (f, t) == ('milli', 'sec')):
             add('q_divdef', SAT)
     return out
 
@@ -152,7 +155,7 @@ def unary_queries(w, f, dlim, bud):
     out = []
     for e, s in (('q_period', ['minisat']), ('q_abs', SAT), ('q_unary', SAT), ('q_caddsub', SAT), ('q_cmul', ['cvc5', 'kissat']), ('q_cmul_std', SMT), ('q_cdivmod', SMT),
                  ('q_cdivdef', SAT), ('q_tp_arith', SAT)):
-        out.append(dict(entry=e, cfg=cfg, unwind=3, solver=s, budget=bud))
+        out.append(dict(entry=e, cfg=cfg, unwind=3, solver=s, budget=bud, witness_solver='kissat'))
     return out
 
 
@@ -177,7 +180,8 @@ def queries(tier, prop='C12'):
     out = []
     pairs = QUICK_PAIRS if quick else [(a, b) for a in PERIODS for b in PERIODS]
     bud = 90 if quick else 600
-    rlim_div = 16 if quick else 20
+    # log2 bound on |count| for round with the rational oracle when the factor divides, by (Rep width, numerator == 1): measured
+    rlim_div = {(32, True): 12, (32, False): 12, (64, True): 12, (64, False): 9} if quick else {(32, True): 14, (32, False): 12, (64, True): 14, (64, False): 11}
     dlim = 5 if quick else 6
     for w in (32, 64):
         for i, (f, t) in enumerate(pairs):
@@ -185,9 +189,9 @@ def queries(tier, prop='C12'):
         for f in (['milli', 'r5_7'] if quick else list(PERIODS)):
             out += unary_queries(w, f, dlim, bud)
     for (f, t) in (I16_PAIRS if quick else [(a, b) for a in PERIODS for b in PERIODS]):
-        out += int_queries(tier, 16, f, t, arith=(not quick), rlim_div=0, dlim=15, bud=bud)
+        out += int_queries(tier, 16, f, t, arith=False, rlim_div=None, dlim=15, bud=bud)
     out += unary_queries(16, 'milli', 15, bud)
-    fpairs = FLOAT_PAIRS_Q if quick else QUICK_PAIRS
+    fpairs = FLOAT_PAIRS_Q if quick else QUICK_PAIRS[::2]
     for w in (132, 164):
         for (f, t) in fpairs:
             out += float_queries(w, f, t, bud)
